@@ -688,12 +688,16 @@ def _perm(rng, k):
 
 
 def m_perm(rng, n):
-    """sibling lists of the copy in another order (ports / cables / children of definitions,
-    definitions of libraries, libraries): structurally the same netlist.  Inner lists first, so
-    that every positional path is valid when its mop runs."""
+    """sibling lists of the copy in another order (pins of wires, ports / cables / children of
+    definitions, definitions of libraries, libraries): structurally the same netlist.  Inner lists
+    first, so that every positional path is valid when its mop runs."""
     mops = []
     for i, l in enumerate(n.libraries):
         for j, d in enumerate(l.definitions):
+            for k, cb in enumerate(d.cables):
+                for w, wire in enumerate(cb.wires):
+                    if len(wire.pins) >= 2 and rng.random() < 0.5:
+                        mops.append(['reorder', 'pin', ['W', i, j, k, w], _perm(rng, len(wire.pins))])
             for kind, lst in (('port', d.ports), ('cable', d.cables), ('child', d.children)):
                 if len(lst) >= 2 and rng.random() < 0.7:
                     mops.append(['reorder', kind, ['D', i, j], _perm(rng, len(lst))])
@@ -728,7 +732,7 @@ def m_lower_index(rng, n):
 # single-difference cases does not depend on them)
 EXTRA_CLASSES = {
     'perm': (m_perm, 'perm'),                 # equivalent: must be accepted
-    'pin_order': (m_pin_order, 'pin_order'),  # equivalent as sets of pins per wire
+    'pin_order': (m_pin_order, 'pin_order'),  # equivalent (the pins of a wire are a set): must be accepted
     'lower_index': (m_lower_index, 'lower_index'),  # not listed by the property, never read
 }
 
